@@ -81,17 +81,21 @@ CHECKS["C05"] = ("HttpProtocol.tla, TraceHttpProtocol.tla",
     "Trusted: TLC, harness/protocol.py (turns raw messages into typed event records), servers.py.",
     "DESIGN.md 5 C05")
 
-CHECKS["C06"] = ("SseWsgi.tla, StreamAsgi.tla, TraceStreamAsgi.tla",
+CHECKS["C06"] = ("SseWsgi.tla, StreamWsgi.tla, SseAsgi.tla, TraceSseAsgi.tla, StreamAsgi.tla, TraceStreamAsgi.tla",
     "WSGI: TLC exhaustive model check of relay thread / consumer generator / server over a one-slot queue (NoStuck, ClosedOnce, "
     "NoLeak, Delivered, RaisedIsReported; liveness Terminates under weak fairness); every transition forced onto the real "
     "threads by a cooperative scheduler, each schedule then completed fairly and judged; witness Fixed=FALSE must deadlock. "
-    "ASGI: timing scenarios run under a virtual-time loop, event logs validated by TLC against the timed automaton StreamAsgi.tla",
+    "ASGI: TLC exhaustive model check of the three asyncio tasks of an event stream (main / relay / disconnect watcher, one-slot queue, "
+    "cancellation delivery) at task level - SseAsgi.tla: invariants plus liveness Terminates and ReturnsAfterDisconnect under fairness, "
+    "witness Drain=FALSE must leak the relay task; timing scenarios run under a virtual-time loop with the library's asyncio name proxied, "
+    "every queue / task / timer / send event validated by TLC against TraceSseAsgi.tla (one logged event = one action) and the visible "
+    "events against the timed automaton StreamAsgi.tla",
     "Every interleaving of producer, relay, consumer and close() at the grain of queue/future/yield operations for generators of "
     "0..2 (thorough 3) items with an exception at any item; ASGI: all item-delay / ping / disconnect-tick / exception-point / "
     "send-cost combinations in the bounds, with the return deadline, single cleanup, no pending task and in-order delivery "
     "checked per event.",
     "Trusted: TLC, harness/sched.py (threads move only at its control points), harness/vloop.py, asyncio's FIFO ready queue. "
-    "The ASGI model is a property automaton over observed events, not an interleaving model of the tasks.",
+    "The task-level ASGI model covers event streams; the plain ASGI StreamResponse is covered by the property automaton only.",
     "DESIGN.md 5 C06")
 
 CHECKS["C10"] = ("RequestBody.tla",
@@ -105,19 +109,22 @@ CHECKS["C10"] = ("RequestBody.tla",
     "Trusted: TLC, harness/vloop.py. Outcome-level refinement: intermediate states of the real object are not compared.",
     "DESIGN.md 5 C10")
 
-CHECKS["C01"] = ("Multipart.tla",
+CHECKS["C01"] = ("Multipart.tla, TraceMultipart.tla",
     "TLC exhaustive model check of the decoder state machine (its three regular expressions transcribed on symbol sequences, "
     "the hold-back rule) and the helpers' event loop over every chunking of every encoded form (PrefixOK, Exact); every edge of "
     "the state graph executed once on a real MultipartDecoder by DFS with snapshots; every form decoded by parse_stream, "
-    "parse_async_stream, wsgi/asgi Request.form under byte-level chunkings",
+    "parse_async_stream, wsgi/asgi Request.form under byte-level chunkings; recorded sessions of real decoders on kilobyte bodies "
+    "(and the decoder sessions of the repository's own tests) validated event by event by TLC against TraceMultipart.tla with the "
+    "module's invariants evaluated on every trace state",
     "Forms with 0-2 parts, field and file, all contents up to 3 symbols over {CR, LF, '-', boundary char, other} that do not "
     "contain the delimiter, optional preamble, all chunkings with chunks of 0..3 (thorough 4) symbols; four boundary "
     "concretisations incl. regex metacharacters and 70 characters; cuts inside header text at helper level.",
     "Trusted: TLC, the symbol->byte concretisation, Python's re for these three patterns (drift would show a mismatch).",
     "DESIGN.md 5 C01")
-CHECKS["C15"] = ("Multipart.tla",
+CHECKS["C15"] = ("Multipart.tla, TraceMultipart.tla",
     "TLC exhaustive model check with the limit grid (LimitExact, NoEarly413, BoundedHold over every chunking); witness "
-    "HoldFix=FALSE must violate BoundedHold; every (form, limits) scenario run on both helpers under byte-level chunkings; "
+    "HoldFix=FALSE and witness OpenFix=FALSE must violate BoundedHold; recorded decoder sessions with 3-12 KB parts validated by TLC "
+    "with the hold-back bound as invariant on every trace state; every (form, limits) scenario run on both helpers under byte-level chunkings; "
     "buffering measured on the real decoder and helpers with megabyte parts after a leading CR/LF",
     "Limits at the exact totals -1/0/+1 for parts and field bytes, sync = async, 324/325 parts on the form accessors; the "
     "buffering bound chunk + delimiter + constant is checked in the model for contents longer than the bound and on the "
